@@ -142,7 +142,7 @@ Definition e_children (e : expr) : list expr :=
   end.
 
 Definition e_scope (e : expr) : list str :=                         (* Expression.scope; Lambda :440 *)
-  match e with ELambda ps _ => ps | _ => [] end.
+  match e with ELambda ps _ => firstn 2 ps | _ => [] end.   (* self.params[:2]: what map() binds *)
 
 (** ** Node methods per class *)
 
